@@ -486,6 +486,13 @@ def _list_of_closed(prog, fm: FuncModel, name: str, at, depth) -> tuple[bool, st
             if not r[0]:
                 return r
             continue
+        if isinstance(v, ast.ListComp) and len(v.generators) == 1 and isinstance(v.generators[0].iter, ast.Name) \
+                and ast.dump(v.elt) == ast.dump(v.generators[0].target).replace("Store()", "Load()"):
+            # a selection of elements of another such list
+            r = _list_of_closed(prog, fm, v.generators[0].iter.id, d, depth + 1)
+            if not r[0]:
+                return r
+            continue
         if isinstance(v, ast.Call) and callee_name(v) == "source_SCCs":
             g = prog.fm("biobalm.interaction_graph_utils", "source_SCCs")
             tests = [t for t in own_walk(g.f.node) if isinstance(t, ast.Compare) and "backward_reachable" in text(t)]
